@@ -15,6 +15,7 @@ import (
 	"github.com/form3tech-oss/f1/v2/internal/verifshim/vrt"
 	"github.com/form3tech-oss/f1/v2/internal/verifshim/vtime"
 	"github.com/form3tech-oss/f1/v2/pkg/f1/scenarios"
+	"github.com/form3tech-oss/f1/v2/pkg/f1"
 	f1testing "github.com/form3tech-oss/f1/v2/pkg/f1/testing"
 )
 
@@ -25,6 +26,9 @@ const (
 	bFailNow = "FailNow"
 	bPanic   = "panic"
 	bPanicE  = "panic(error)" // the panic value is an error (what a runtime error is, too)
+	// panic values whose own String / Error method panics (a nil pointer whose method reads a field)
+	bPanicBadS = "panic(stringer-whose-String-panics)"
+	bPanicBadE = "panic(error-whose-Error-panics)"
 	bBlock   = "block"        // body only: never returns (completion-timeout ending)
 	bGoexit  = "Goexit"       // body only: runtime.Goexit, what FailNow of a standard library testing.T does
 )
@@ -42,6 +46,9 @@ type program struct {
 	mode          string // constant|users
 	ending        string // duration|limit|cancel|timeout
 	conc          int
+	// the scenario is registered as f1.CombineScenarios(<a passing component>, <this program>): the lifecycle of
+	// the program's cleanups is the same as when it is registered alone
+	combined bool
 }
 
 func (p program) String() string {
@@ -49,7 +56,11 @@ func (p program) String() string {
 	for _, it := range p.iters {
 		its = append(its, fmt.Sprintf("[%s]%s[%s]", strings.Join(it.before, ","), it.outcome, strings.Join(it.after, ",")))
 	}
-	return fmt.Sprintf("setup=%s setup-cleanups=[%s] iterations=%s mode=%s ending=%s conc=%d", p.setup, strings.Join(p.setupCleanups, ","), strings.Join(its, " "), p.mode, p.ending, p.conc)
+	c := ""
+	if p.combined {
+		c = " registered-as-a-combined-scenario"
+	}
+	return fmt.Sprintf("setup=%s setup-cleanups=[%s] iterations=%s mode=%s ending=%s conc=%d%s", p.setup, strings.Join(p.setupCleanups, ","), strings.Join(its, " "), p.mode, p.ending, p.conc, c)
 }
 
 func act(t *f1testing.T, b string) {
@@ -62,6 +73,12 @@ func act(t *f1testing.T, b string) {
 		panic("scripted panic")
 	case bPanicE:
 		panic(fmt.Errorf("scripted panic with an error value"))
+	case bPanicBadS:
+		var b *badStringer
+		panic(b)
+	case bPanicBadE:
+		var b *badError
+		panic(error(b))
 	case bGoexit:
 		runtime.Goexit()
 	}
@@ -121,10 +138,23 @@ func (p program) spec() *hlib.RunSpec {
 			vrt.LogQuiet(fmt.Sprintf("body-end %d %s", id, h))
 		}
 	}
+	if p.combined {
+		rs.ScenarioFn = f1.CombineScenarios(func(*f1testing.T) f1testing.RunFn { return func(*f1testing.T) {} }, rs.ScenarioFn)
+	}
 	return rs
 }
 
-func stops(b string) bool { return b == bFailNow || b == bPanic || b == bPanicE || b == bGoexit }
+type badStringer struct{ n *int }
+
+func (b *badStringer) String() string { return fmt.Sprint(*b.n) }
+
+type badError struct{ n *int }
+
+func (b *badError) Error() string { return fmt.Sprint(*b.n) }
+
+func stops(b string) bool {
+	return b == bFailNow || b == bPanic || b == bPanicE || b == bGoexit || b == bPanicBadS || b == bPanicBadE
+}
 
 func check(r *hlib.Rec, p program) {
 	r.Eval()
@@ -352,9 +382,12 @@ func suiteSetup(full bool) hlib.Suite {
 			{{outcome: bOK}},
 			{{before: []string{bOK, bPanic}, outcome: bFailNow, after: []string{bOK}}, {before: []string{bFailNow}, outcome: bOK}},
 			{{outcome: bPanic}, {before: []string{bOK}, outcome: bFail, after: []string{bPanic}}, {outcome: bOK}},
+			// a cleanup in the middle, and a body, that panic with values whose own String / Error method panics: the other
+			// cleanups still run, the next iteration still starts
+			{{before: []string{bOK, bPanicBadS, bOK}, outcome: bOK}, {before: []string{bOK, bPanicBadE, bOK}, outcome: bPanicBadS}, {before: []string{bOK}, outcome: bPanicBadE}},
 		}
-		for _, setup := range []string{bOK, bFail, bFailNow, bPanic, bPanicE} {
-			for _, sc := range lists([]string{bOK, bFail, bFailNow, bPanic, bPanicE}, 2) {
+		for _, setup := range []string{bOK, bFail, bFailNow, bPanic, bPanicE, bPanicBadS, bPanicBadE} {
+			for _, sc := range lists([]string{bOK, bFail, bFailNow, bPanic, bPanicE, bPanicBadS, bPanicBadE}, 2) {
 				for _, its := range bodies {
 					for _, mode := range []string{"constant", "users"} {
 						for _, ending := range []string{"duration", "limit", "cancel", "timeout", "cancel-in-setup"} {
@@ -409,6 +442,9 @@ func suiteBodies(full bool) hlib.Suite {
 						conc = 2
 					}
 					check(r, program{setup: bOK, setupCleanups: []string{bOK}, iters: its, mode: mode, ending: ending, conc: conc})
+					if len(its) == 1 && ending != "cancel" {
+						check(r, program{setup: bOK, setupCleanups: []string{bOK}, iters: its, mode: mode, ending: ending, conc: conc, combined: true})
+					}
 				}
 			}
 			return true
